@@ -107,7 +107,13 @@ func genGateSpec(typ string) *rapid.Generator[gateSpec] {
 		case "Exponentiation":
 			g.P = []uint64{r(1, 67, "num_power_bits")}
 		case "RandomAccess":
-			g.P = []uint64{r(1, 5, "bits"), r(1, 4, "copies"), r(0, 2, "extra")}
+			// plonky2 fills the routed wires: up to 20 copies for 1 bit, 13 for 2 bits, ... (multi-digit values matter to the identifier parser)
+			bits := r(1, 5, "bits")
+			maxCopies := int((gateRowWires - 10) / (2 + (uint64(1) << bits) + bits))
+			if maxCopies > 20 {
+				maxCopies = 20
+			}
+			g.P = []uint64{bits, r(1, maxCopies, "copies"), r(0, 2, "extra")}
 		case "CosetInterpolation":
 			sb := r(2, 4, "subgroup_bits")
 			deg := r(2, 6, "degree")
